@@ -189,6 +189,16 @@ def invertSuffBeta (fn : Fn K) (sp : Sp K) (l1 l2 : K) : K × K :=
   let ab := invBetaSuffstats fn sp l1 l2
   calcNatural .beta ab.1 ab.2
 
+/-- how far the result of the numerical inversion is from solving its equations: `ψ(α) − log α − c` for Gamma,
+the two moment equations for Beta (`(0, 0)` means converged); nothing is iterated for the other families -/
+def suffResidual (fn : Fn K) (sp : Sp K) (fam : Family) (m1 m2 : K) : K × K :=
+  match fam with
+  | .gamma =>
+    let c := m1 - fn.log m2
+    (psilog fn sp (invpsilog fn sp c) - c, 0)
+  | .beta => betaResidual sp m1 m2 (invBetaSuffstats fn sp m1 m2)
+  | _ => (0, 0)
+
 /-! ## from sufficient statistics, projection — every family -/
 
 /-- `cls.invert_sufficient_statistics` -/
